@@ -31,7 +31,10 @@ Def(fam, n) == fam[CHOOSE i \in DOMAIN fam : fam[i].name = n]
 Defined(fam, n) == \E i \in DOMAIN fam : fam[i].name = n
 Scale(v, k) == [b \in Bases |-> k * v[b]]
 Plus(v, w) == [b \in Bases |-> v[b] + w[b]]
-Bad == [base |-> Zero, log |-> 0, ok |-> FALSE, exact |-> FALSE]
+\* exponents are integers (base); a child may instead carry an exponent in tenths (field e10, on a reference to units without scale):
+\* those contributions are kept apart (tenths), the exponent of a base unit is base + tenths / 10
+Bad == [base |-> Zero, tenths |-> Zero, log |-> 0, ok |-> FALSE, exact |-> FALSE]
+Total(r) == [b \in Bases |-> 10 * r.base[b] + r.tenths[b]]
 RECURSIVE Reduce(_, _, _)
 RECURSIVE SumKids(_, _, _, _)
 Reduce(fam, n, depth) ==
@@ -40,22 +43,26 @@ Reduce(fam, n, depth) ==
     THEN LET d == Def(fam, n) IN
          IF d.imp # "none" THEN Reduce(fam, d.imp, depth - 1)      \* imported units: whatever the imported definition reduces to
          ELSE IF d.kids = <<>>
-         THEN IF n \in Bases THEN [base |-> Vec({<<n, 1>>}), log |-> 0, ok |-> TRUE, exact |-> TRUE] ELSE Bad   \* user base unit
+         THEN IF n \in Bases THEN [base |-> Vec({<<n, 1>>}), tenths |-> Zero, log |-> 0, ok |-> TRUE, exact |-> TRUE] ELSE Bad   \* user base unit
          ELSE SumKids(fam, d.kids, 1, depth)
-    ELSE IF n \in StdNames THEN [base |-> Std(n)[2], log |-> Std(n)[3], ok |-> TRUE, exact |-> TRUE]
+    ELSE IF n \in StdNames THEN [base |-> Std(n)[2], tenths |-> Zero, log |-> Std(n)[3], ok |-> TRUE, exact |-> TRUE]
     ELSE Bad
 SumKids(fam, kids, i, depth) ==
-    IF i > Len(kids) THEN [base |-> Zero, log |-> 0, ok |-> TRUE, exact |-> TRUE]
+    IF i > Len(kids) THEN [base |-> Zero, tenths |-> Zero, log |-> 0, ok |-> TRUE, exact |-> TRUE]
     ELSE LET k == kids[i]
              r == Reduce(fam, k.ref, depth - 1)
              rest == SumKids(fam, kids, i + 1, depth)
-         IN [base |-> Plus(Scale(r.base, k.exp), rest.base),
+         IN IF "e10" \in DOMAIN k
+            THEN [base |-> rest.base, tenths |-> Plus(Plus(Scale(r.base, k.e10), Scale(r.tenths, 0)), rest.tenths), log |-> rest.log,
+                  ok |-> r.ok /\ rest.ok /\ r.log = 0 /\ r.tenths = Zero, exact |-> r.exact /\ rest.exact]
+            ELSE
+            [base |-> Plus(Scale(r.base, k.exp), rest.base), tenths |-> Plus(Scale(r.tenths, k.exp), rest.tenths),
              log |-> k.mult + k.exp * (PrefixVal(k.prefix) + r.log) + rest.log,
              ok |-> r.ok /\ rest.ok,
              exact |-> r.exact /\ rest.exact /\ (k.exp = 1 \/ (PrefixVal(k.prefix) = 0 /\ k.mult = 0))]
 R(fam, n) == Reduce(fam, n, 6)
 
-Compatible(fam, a, b) == R(fam, a).ok /\ R(fam, b).ok /\ R(fam, a).base = R(fam, b).base
+Compatible(fam, a, b) == R(fam, a).ok /\ R(fam, b).ok /\ Total(R(fam, a)) = Total(R(fam, b))
 FactorLog(fam, a, b) == R(fam, b).log - R(fam, a).log        \* scalingFactor(a, b) = units2 / units1 = 10^FactorLog
 Equivalent(fam, a, b) == Compatible(fam, a, b) /\ FactorLog(fam, a, b) = 0
 Exact(fam, a, b) == R(fam, a).exact /\ R(fam, b).exact
